@@ -793,3 +793,141 @@ Example ex_refresh_changes_groups :
   h_get k_xfg (upstream true {| cookie_name := [95;115]; pass_access_token := true; inject := [] |}
                         (Authenticated (asserted_session allowed s d)) []) = [[116;44;111]].
 Proof. repeat split. Qed.
+
+(* ------------------------------------------------------------------------------------------ *)
+(* routes: PathPrefix("/") -> Proxy and /favicon.ico -> Favicon = Authenticate; Proxy.
+   Statements for the repaired code (scrub = true), which is the code that exists since 87f9230. *)
+
+Lemma to_reverse_proxy_r_proxy scrub cfg m client :
+  to_reverse_proxy_r scrub cfg RProxy m client = to_reverse_proxy scrub cfg m client.
+Proof. reflexivity. Qed.
+
+Lemma upstream_r_proxy scrub cfg m client : upstream_r scrub cfg RProxy m client = upstream scrub cfg m client.
+Proof. reflexivity. Qed.
+
+(* generic in the header map Proxy starts from *)
+Lemma chain_auth_headers scrub cfg s h :
+  let x := delete_cookie (cookie_name cfg) (proxy_headers scrub cfg (Authenticated s) h) in
+  h_get k_xfu x = [s_user s] /\ h_get k_xfe x = [s_email s] /\ h_get k_xfg x = [join [44] (s_groups s)].
+Proof.
+  cbn zeta. rewrite !delete_cookie_other by discriminate.
+  unfold proxy_headers. rewrite auth_user, auth_email, auth_groups. repeat split.
+Qed.
+
+Lemma chain_token cfg s h :
+  h_get k_xfat (delete_cookie (cookie_name cfg) (proxy_headers true cfg (Authenticated s) h)) = allowed_token cfg s.
+Proof.
+  rewrite delete_cookie_other by discriminate. unfold proxy_headers. rewrite auth_token. unfold allowed_token.
+  destruct (token_enabled cfg s); [reflexivity|]. destruct (last_injected k_xfat (inject cfg)); [reflexivity|].
+  rewrite scrub_get. reflexivity.
+Qed.
+
+Lemma chain_skip cfg h k : In k identity_keys ->
+  h_get k (delete_cookie (cookie_name cfg) (proxy_headers true cfg SkipAuth h)) = [].
+Proof.
+  intros Hk. rewrite delete_cookie_other by (apply identity_not_cookie; exact Hk).
+  apply (proxy_get_skip true cfg h k Hk).
+Qed.
+
+Lemma route_pre_other cfg r h k : ~ In k identity_keys ->
+  h_get k (route_pre cfg r h) =
+  match r with
+  | RProxy => h_get k h
+  | RFavicon _ => match last_injected k (inject cfg) with Some v => [v] | None => h_get k h end
+  end.
+Proof. intros Hk. destruct r as [|s1]; [reflexivity|]. cbn [route_pre]. apply auth_other; exact Hk. Qed.
+
+(* did any Authenticate run, i.e. were the operator's injected headers applied? *)
+Definition inject_ran (r : route) (m : mode) : bool :=
+  match r, m with RProxy, SkipAuth => false | _, _ => true end.
+
+Lemma route_other scrub cfg r m client k : ~ In k identity_keys -> k <> k_cookie ->
+  (inject_ran r m = false \/ operator_clean cfg k) ->
+  h_get k (to_reverse_proxy_r scrub cfg r m client) = h_get k (mk_headers client).
+Proof.
+  intros Hk Hc G. unfold to_reverse_proxy_r. rewrite delete_cookie_other by exact Hc.
+  rewrite (proxy_get_other scrub cfg m _ k Hk), (route_pre_other cfg r _ k Hk).
+  destruct G as [G|G].
+  - destruct r, m; try discriminate. reflexivity.
+  - unfold operator_clean in G. rewrite G. destruct r, m; reflexivity.
+Qed.
+
+Lemma route_cookie_lines scrub cfg r m client :
+  (inject_ran r m = false \/ operator_clean cfg k_cookie) ->
+  h_get k_cookie (proxy_headers scrub cfg m (route_pre cfg r (mk_headers client))) = h_get k_cookie (mk_headers client).
+Proof.
+  intros G. rewrite (proxy_get_other scrub cfg m _ k_cookie cookie_not_identity),
+                    (route_pre_other cfg r _ k_cookie cookie_not_identity).
+  destruct G as [G|G].
+  - destruct r, m; try discriminate. reflexivity.
+  - unfold operator_clean in G. rewrite G. destruct r, m; reflexivity.
+Qed.
+
+Lemma upstream_r_get scrub cfg r m client k :
+  (inject_ran r m = false \/ operator_clean cfg k_connection) ->
+  h_get k (upstream_r scrub cfg r m client) =
+  if client_conn_names client k || mem_str k hop_headers then [] else h_get k (to_reverse_proxy_r scrub cfg r m client).
+Proof.
+  intros G. unfold upstream_r. rewrite hop_get. unfold hop_named, client_conn_names.
+  rewrite (connection_named_ext _ (mk_headers client)); [reflexivity|].
+  apply route_other; [exact connection_not_identity | discriminate | exact G].
+Qed.
+
+Lemma upstream_r_get_weak scrub cfg r m client k :
+  h_get k (upstream_r scrub cfg r m client) = [] \/
+  h_get k (upstream_r scrub cfg r m client) = h_get k (to_reverse_proxy_r scrub cfg r m client).
+Proof. unfold upstream_r. rewrite hop_get. destruct (hop_named _ k); [left | right]; reflexivity. Qed.
+
+Lemma delete_cookie_stripped cn h c : In c (read_cookies (h_get k_cookie (delete_cookie cn h))) -> c_name c <> cn.
+Proof.
+  intros Hin. pose proof (delete_cookie_roundtrip cn h) as R.
+  assert (Hn: In (name_value c) (map name_value (kept cn (h_get k_cookie h)))) by (rewrite <- R; apply in_map; exact Hin).
+  apply in_map_iff in Hn as [c' [Heq Hc']]. pose proof (kept_names _ _ _ Hc') as Hne.
+  unfold name_value in Heq. assert (E1: c_name c' = c_name c) by congruence. congruence.
+Qed.
+
+(* the session cookie never reaches the upstream, on every route that ends in the reverse proxy *)
+Lemma upstream_r_cookie_stripped scrub cfg r m client c :
+  In c (read_cookies (h_get k_cookie (upstream_r scrub cfg r m client))) -> c_name c <> cookie_name cfg.
+Proof.
+  destruct (upstream_r_get_weak scrub cfg r m client k_cookie) as [E|E]; rewrite E; [intros [] | apply delete_cookie_stripped].
+Qed.
+
+Lemma upstream_r_cookies_kept scrub cfg r m client :
+  (inject_ran r m = false \/ (operator_clean cfg k_cookie /\ operator_clean cfg k_connection)) ->
+  client_conn_names client k_cookie = false ->
+  map name_value (read_cookies (h_get k_cookie (upstream_r scrub cfg r m client))) = want_cookies (cookie_name cfg) client.
+Proof.
+  intros G Hn. rewrite upstream_r_get by tauto. rewrite Hn.
+  assert (mem_str k_cookie hop_headers = false) as -> by reflexivity. cbn [orb].
+  unfold to_reverse_proxy_r, want_cookies. rewrite delete_cookie_roundtrip. unfold kept.
+  rewrite route_cookie_lines by tauto. apply map_nv_filter.
+Qed.
+
+(* /favicon.ico, authenticated and not whitelisted: same assertions as on any other path *)
+Lemma favicon_auth_headers cfg s1 s client :
+  let h := to_reverse_proxy_r true cfg (RFavicon s1) (Authenticated s) client in
+  h_get k_xfu h = [s_user s] /\ h_get k_xfe h = [s_email s] /\ h_get k_xfg h = [join [44] (s_groups s)] /\
+  h_get k_xfat h = allowed_token cfg s.
+Proof.
+  cbn zeta. unfold to_reverse_proxy_r.
+  destruct (chain_auth_headers true cfg s (route_pre cfg (RFavicon s1) (mk_headers client))) as [Hu [He Hg]].
+  repeat split; try assumption. apply chain_token.
+Qed.
+
+(* /favicon.ico matched by a skip pattern: Proxy's scrub removes what Favicon's own Authenticate
+   asserted; no identity header reaches the upstream *)
+Lemma favicon_skip_absent cfg s1 client k : In k identity_keys ->
+  h_get k (upstream_r true cfg (RFavicon s1) SkipAuth client) = [].
+Proof.
+  intros Hk. destruct (upstream_r_get_weak true cfg (RFavicon s1) SkipAuth client k) as [E|E]; [exact E|].
+  rewrite E. apply chain_skip; exact Hk.
+Qed.
+
+(* what the seeded shortcut (Favicon calling the upstream handler directly, without Proxy) does:
+   the scrub is skipped and a client-supplied access token survives when the option is off *)
+Example ex_favicon_without_proxy_leaks :
+  h_get k_xfat (delete_cookie (cookie_name w_cfg) (route_pre w_cfg (RFavicon w_sess) (mk_headers [(lower_ascii k_xfat, w_evil)])))
+    = [w_evil] /\
+  h_get k_xfat (upstream_r true w_cfg (RFavicon w_sess) (Authenticated w_sess) [(lower_ascii k_xfat, w_evil)]) = [].
+Proof. split; reflexivity. Qed.
